@@ -58,6 +58,11 @@ def run(ctx):
             if kind == "operands":
                 args = [r for r, _ in roots] + [b"-sorted", b"-print0"]
                 exp_roots, diag = roots, False
+                if rng.random() < 0.15:
+                    # an empty depth range selects nothing, but a starting point that cannot be examined is still diagnosed
+                    args = [r for r, _ in roots] + [b"-mindepth", b"2", b"-maxdepth", b"1", b"-sorted", b"-print0"]
+                    cases.append(dict(kind=kind, args=args, roots=exp_roots, diag=diag, data=None, empty_range=True))
+                    continue
             elif kind == "files0":
                 extra = []
                 if rng.random() < 0.5:
@@ -107,6 +112,8 @@ def run(ctx):
                 mroots = [fw.unhex(x) for x in m.split(" ")[0].split(",")]
                 ok_model = mroots == [r for r, _ in c["roots"]]
                 exp_out, exp_err = expected_for(forest, c["roots"])
+                if c.get("empty_range"):
+                    exp_out = b""
             else:
                 names, dflag = m.split(" ")
                 mroots = [] if names == "~" else [fw.unhex(x) for x in names.split(",")]
